@@ -63,7 +63,14 @@ def impl(c):
     from simfile.notes.timed import time_notes, UnhittableNotes
     td = GT.mk_timing_data(c["td"])
     eng = TimingEngine(td)
-    hits = [bool(eng.hittable(Beat(b, 48))) for b in hit_beats(c)]
+    hb = list(hit_beats(c))
+    hits = [bool(eng.hittable(Beat(b, 48))) for b in hb]
+    import random as _r
+    idx = list(range(len(hb)))
+    back = {i: bool(eng.hittable(Beat(hb[i], 48))) for i in reversed(idx)}
+    _r.Random(5).shuffle(idx)
+    shuf = {i: bool(eng.hittable(Beat(hb[i], 48))) for i in idx}
+    hit_unstable = [hb[i] for i in range(len(hb)) if back[i] != hits[i] or shuf[i] != hits[i]]
     ns, txt = note_list(c)
     timed = []
     for tn in time_notes(NoteData(txt), td, UnhittableNotes(c["opt"])):
@@ -73,7 +80,7 @@ def impl(c):
     td2 = GT.mk_timing_data(dict(c["td"], offset=str(Decimal(c["td"]["offset"]) + Decimal("1.25"))))
     timed2 = [[float(tn.time), G.note_obs(tn.note)] for tn in time_notes(NoteData(txt), td2, UnhittableNotes(c["opt"]))]
     shift = len(timed2) == len(timed) and all(n1 == n2 and abs((t2 - t1) + 1.25) < 1e-9 for (t1, n1), (t2, n2) in zip(timed, timed2))
-    return {"hits": hits, "timed": timed, "offset_shift": bool(shift)}
+    return {"hits": hits, "timed": timed, "offset_shift": bool(shift), "hit_unstable": hit_unstable[:5]}
 
 
 def requests(c):
@@ -132,6 +139,8 @@ def oracle(c, o):
     for (t, n), (q, m) in zip(o["timed"], exp):
         if not c11.close(t, q):
             return "note %s timed at %r, exact time is %s" % (n, t, float(q))
+    if o.get("hit_unstable"):
+        return "hittable(%s) changed its answer when asked again on the same engine in another order" % Fraction(o["hit_unstable"][0], 48)
     if o.get("offset_shift") is False:
         return "the same notes timed under offset + 1.25 (same events, same process) did not all move by -1.25 s"
     return None
